@@ -62,6 +62,10 @@ for t, c in FT.items():
     U.add('extractRot_' + t, [(c, 16)], [(c, 16)], 'stm(o, glm::extractMatrixRotation(%s));' % M4('a'))
     U.add('axisAngle_' + t, [(c, 16)], [(c, 3), (c, 1), (c, 16)],
           'glm::vec<3,%s> ax(0); %s an = 0; glm::axisAngle(%s, ax, an); stv(o, ax); o2[0] = an; stm(o3, glm::axisAngleMatrix(ax, an));' % (c, c, M4('a')))
+    U.add('axisAngle0_' + t, [(c, 16)], [(c, 3), (c, 1)], 'glm::vec<3,%s> ax(0); %s an = 0; glm::axisAngle(%s, ax, an); stv(o, ax); o2[0] = an;' % (c, c, M4('a')))
+    U.add('interp_parts_' + t, [(c, 16), (c, 16), (c, 1)], [(c, 16), (c, 16)],
+          'auto m1 = %s; auto m2 = %s; stm(o, glm::interpolate(m1, m2, c[0])); auto r1 = glm::extractMatrixRotation(m1); glm::vec<3,%s> ax(0); %s an = 0; glm::axisAngle(m2 * glm::transpose(r1), ax, an);'
+          ' auto r = glm::axisAngleMatrix(ax, an * c[0]) * r1; r[3] = glm::vec<4,%s>(glm::vec<3,%s>(m1[3]) + c[0] * (glm::vec<3,%s>(m2[3]) - glm::vec<3,%s>(m1[3])), r[3][3]); stm(o2, r);' % (M4('a'), M4('b'), c, c, c, c, c, c))
     U.add('interpolate_' + t, [(c, 16), (c, 16), (c, 1)], [(c, 16)], 'stm(o, glm::interpolate(%s, %s, c[0]));' % (M4('a'), M4('b')))
     # ---- gtx/matrix_decompose: components travel as [scale(3), orientation(w,x,y,z), translation(3), skew(3), perspective(4)]
     DEC = ('glm::vec<3,%s> sc(0), tr(0), sk(0); glm::qua<%s> q(1, 0, 0, 0); glm::vec<4,%s> pe(0); bool ok = glm::decompose(%s, sc, q, tr, sk, pe);'
@@ -178,7 +182,7 @@ def rodrigues(cs, sn, n):
 def mkex(unit, mode, unwind):
     ex = Exec(unit.module(), fmode='real' if mode == 'real' else 'fp', unwind=unwind)
     if mode == 'real':
-        realtrig.map_pi_literals(ex); ex.trig_domain = True; ex.model_inputs_hook = realtrig.model_inputs_hook
+        realtrig.map_pi_literals(ex); ex.trig_domain = True; ex.model_inputs_hook = realtrig.model_inputs_hook; ex.sqrt_memo = {}
     return ex
 def chk(S, unit, fn, spec, pre=None, setup=None, **kw):
     """check_fn in real mode; spec(i, o, T) gets the Ctx of the executor that ran the code; setup(res, T) may add (true) lemma instances as hypotheses"""
@@ -433,6 +437,11 @@ def job_lemmas(S):
         for k in range(r, 3): P('rodrigues.orthonormal[r%dc%d]' % (r, k), RRt[r][k] == (1 if r == k else 0), hy)
         P('rodrigues.fixes-axis[%d]' % r, mvec(R, n)[r] == n[r], hy)
     P('rodrigues.det==1', det3(R) == 1, hy)
+    Rm = rodrigues(c, -s_, [-x for x in n])
+    for r in range(3):
+        for k in range(3): P('rodrigues.sign[r%dc%d]: Rodrigues(c,-s,-n) == Rodrigues(c,s,n)' % (r, k), Rm[r][k] == R[r][k])
+    P('axisangle.final: a == n_k  given a y == 2 s n_k, y == 2 s, s > 0', xk == nk, [xk * L == 2 * s_ * nk, L == 2 * s_, s_ > 0])
+    P('axisangle.final-: a == -n_k  given a y == 2 s n_k, y == -2 s, s < 0', xk == -nk, [xk * L == 2 * s_ * nk, L == -2 * s_, s_ < 0])
 def job_axisanglematrix(t):
     def run(S):
         def spec(i, o, T):
@@ -449,42 +458,53 @@ def flat(Mrows):
     """rows[r][c] -> column-major list"""
     return [rv(Mrows[r][c]) for c in range(len(Mrows[0])) for r in range(len(Mrows))]
 def job_axisangle(t):
-    """axisAngle(R) returns (axis, angle) with axisAngleMatrix(axis, angle) == R for every rotation R = Rodrigues(c, s, n) outside the code's 'near symmetrical' band; exact half turns and the identity"""
+    """chain: (here) for R = Rodrigues(c, s, n) outside the code's 'near symmetrical' band axisAngle returns axis = sign(s) n and an angle in [0, pi] with cos = c, sin = |s|;
+    (lemmas.rodrigues.sign) Rodrigues(c, |s|, sign(s) n) == R; (axisanglematrix job) axisAngleMatrix(axis, angle) == Rodrigues(angle, axis/|axis|).  Exact half turns and the identity directly."""
     def run(S):
         eps = eps_of(t) * 100
         c, s_ = z3.Reals('rc rs'); n = list(z3.Reals('rn0 rn1 rn2')); tr = list(z3.Reals('rt0 rt1 rt2'))
         R = rodrigues(c, s_, n); Min = flat([R[r] + [tr[r]] for r in range(3)] + [[ZERO, ZERO, ZERO, ONE]])
         rot = [c * c + s_ * s_ == 1, norm2(n) == 1]
         generic = z3.Or(*[absr(2 * s_ * n[k]) >= eps for k in range(3)])
-        def spec(i, o, T):
-            ax = [rv(x) for x in o[0]]; an = rv(o[1][0])
-            g = mat_goals('axisAngleMatrix(axisAngle(R))==R', [row[:3] for row in M4of(o[2])[:3]], [row[:3] for row in M4of(i[0])[:3]])
-            return g + [('angle>=0', RGoal('ge', an, ZERO)), ('angle<=pi', RGoal('le', an, T.pi)), ('|axis|==1', REq(norm2(ax), ONE))] + [('axis||n[%d,%d]' % (a, b), REq(ax[a] * n[b], ax[b] * n[a])) for a in range(3) for b in range(a + 1, 3)]
-        for sg, cond in (('s>0', s_ > 0), ('s<0', s_ < 0)):
-            chk(S, U, 'axisAngle_' + t, spec, lambda i, cond=cond: rot + [generic, cond], ins=[Min], name='c09.axisAngle_%s.generic.%s' % (t, sg), solver='z3', timeout=S.cap(60, 180),
-                bounds='R = Rodrigues(c, s, n), c^2 + s^2 = 1, |n| = 1, some |2 s n_k| >= 100 epsilon; ' + sg)
+        for sg, cond, sign in (('s>0', s_ > 0, 1), ('s<0', s_ < 0, -1)):
+            def spec(i, o, T, sign=sign):
+                ax = [rv(x) for x in o[0]]; an = rv(o[1][0]); Mx = M4of(i[0])
+                v = [Mx[2][1] - Mx[1][2], Mx[0][2] - Mx[2][0], Mx[1][0] - Mx[0][1]]          # antisymmetric part of R = 2 s n
+                y = T.sqrt(norm2(v), share=True)
+                g = T.link_goals() + [('antisymmetric-part[%d]==2 s n' % k, REq(v[k], 2 * s_ * n[k])) for k in range(3)] + [('|2 s n|==2|s|', REq(y, sign * 2 * s_))]
+                g += [('axis[%d]*|2 s n|==2 s n' % k, REq(ax[k] * y, 2 * s_ * n[k])) for k in range(3)]
+                return g + [('cos(angle)==c', REq(T.cos(an), c)), ('sin(angle)==|s|', REq(T.sin(an), sign * s_)), ('angle>=0', RGoal('ge', an, ZERO)), ('angle<=pi', RGoal('le', an, T.pi))]
+            chk(S, U, 'axisAngle0_' + t, spec, lambda i, cond=cond: rot + [generic, cond], ins=[Min], name='c09.axisAngle_%s.generic.%s' % (t, sg), solver='z3', timeout=S.cap(60, 180),
+                bounds='R = Rodrigues(c, s, n), c^2 + s^2 = 1, |n| = 1, some |2 s n_k| >= 100 epsilon; ' + sg, mutant=lambda i, o, T: [('angle==0', REq(rv(o[1][0]), ZERO))])
         # exact half turn: R = 2 n n^T - I
         H = [[2 * n[r] * n[k] - (ONE if r == k else ZERO) for k in range(3)] for r in range(3)]; Hin = flat([H[r] + [tr[r]] for r in range(3)] + [[ZERO, ZERO, ZERO, ONE]])
         def spech(i, o, T):
             ax = [rv(x) for x in o[0]]
             return [('angle==pi', REq(rv(o[1][0]), T.pi))] + [('axis_%d*axis_%d==n_%d*n_%d' % (a, b, a, b), REq(ax[a] * ax[b], n[a] * n[b])) for a in range(3) for b in range(a, 3)]
-        chk(S, U, 'axisAngle_' + t, spech, lambda i: [norm2(n) == 1], ins=[Hin], name='c09.axisAngle_%s.halfturn' % t, solver='z3', timeout=S.cap(60, 180), bounds='R = 2 n n^T - I, |n| = 1: angle pi, axis = +-n')
+        n2 = [x * x for x in n]
+        for nm, cond in (('x', z3.And(n2[0] > n2[1], n2[0] > n2[2])), ('y', z3.And(z3.Not(z3.And(n2[0] > n2[1], n2[0] > n2[2])), n2[1] > n2[2])), ('z', z3.And(z3.Not(z3.And(n2[0] > n2[1], n2[0] > n2[2])), z3.Not(n2[1] > n2[2])))):
+            chk(S, U, 'axisAngle0_' + t, spech, lambda i, cond=cond: [norm2(n) == 1, cond], ins=[Hin], name='c09.axisAngle_%s.halfturn.%s' % (t, nm), solver='z3', timeout=S.cap(60, 180),
+                bounds='R = 2 n n^T - I, |n| = 1: angle pi, axis = +-n; largest diagonal entry: ' + nm)
         Iin = flat([[ONE if r == k else (tr[r] if (k == 3 and r < 3) else ZERO) for k in range(4)] for r in range(4)])
         chk(S, U, 'axisAngle_' + t, lambda i, o, T: [('angle==0', REq(rv(o[1][0]), ZERO))] + vec_goals('axis==(1,0,0)', o[0], [ONE, ZERO, ZERO]) + mat_goals('axisAngleMatrix==I', M4of(o[2]), ident(4)), None, ins=[Iin],
             name='c09.axisAngle_%s.identity' % t, solver='z3', bounds='R = I (any translation)')
     return run
 def job_interpolate(t):
+    """interpolate(m1, m2, d) == axisAngleMatrix(axis, angle*d) * rot(m1) with (axis, angle) = axisAngle(m2 * rot(m1)^T) and the translation m1.t + d (m2.t - m1.t) (composition of the parts verified above);
+    d = 0 gives m1 for every affine m1 and every m2; d = 1 gives m2 for m1 a translation and m2 = translation * rotation (optional: heavy)"""
     def run(S):
+        chk(S, U, 'interp_parts_' + t, lambda i, o, T: mat_goals('interpolate==R(axis,angle*d)*rot(m1)+lerp(t)', M4of(o[0]), M4of(o[1])), None, side=False, witness=False, solver='z3', bounds='all m1, m2, delta (outputs compared as terms)')
         m1 = [z3.Real('p%d' % k) if k % 4 != 3 else (ONE if k == 15 else ZERO) for k in range(16)]; m2 = [z3.Real('q%d' % k) for k in range(16)]
         chk(S, U, 'interpolate_' + t, lambda i, o, T: mat_goals('interpolate(m1,m2,0)==m1', M4of(o[0]), M4of(i[0])), None, ins=[m1, m2, [ZERO]], name='c09.interpolate_%s.delta0' % t, solver='z3', timeout=S.cap(60, 180),
             bounds='delta = 0: all affine m1 (last row 0 0 0 1), all m2')
+        if S.quick: return
         c, s_ = z3.Reals('rc rs'); n = list(z3.Reals('rn0 rn1 rn2')); t1 = list(z3.Reals('s0 s1 s2')); t2 = list(z3.Reals('t0 t1 t2'))
         R = rodrigues(c, s_, n); eps = eps_of(t) * 100
         T1 = flat(translation(t1)); M2 = flat([R[r] + [t2[r]] for r in range(3)] + [[ZERO, ZERO, ZERO, ONE]])
         generic = z3.Or(*[absr(2 * s_ * n[k]) >= eps for k in range(3)])
         for sg, cond in (('s>0', s_ > 0), ('s<0', s_ < 0)):
-            chk(S, U, 'interpolate_' + t, lambda i, o, T: mat_goals('interpolate(m1,m2,1)==m2', M4of(o[0]), M4of(i[1])), lambda i, cond=cond: [c * c + s_ * s_ == 1, norm2(n) == 1, generic, cond], ins=[T1, M2, [ONE]],
-                name='c09.interpolate_%s.delta1.%s' % (t, sg), solver='z3', timeout=S.cap(60, 180), bounds='delta = 1: m1 = translation, m2 = translation * Rodrigues(c,s,n) outside the near-symmetrical band; ' + sg)
+            chk(S, U, 'interpolate_' + t, lambda i, o, T: mat_goals('interpolate(m1,m2,1)==m2', M4of(o[0]), M4of(i[1])), lambda i, cond=cond: [c * c + s_ * s_ == 1, norm2(n) == 1, generic, cond], ins=[T1, M2, [ONE]], mandatory=False,
+                name='c09.interpolate_%s.delta1.%s' % (t, sg), solver='z3', timeout=120, bounds='delta = 1: m1 = translation, m2 = translation * Rodrigues(c,s,n) outside the near-symmetrical band; ' + sg)
     return run
 
 def jobs(tier):
